@@ -206,3 +206,53 @@ B("B68", "C04-T1", [(SD, '''        node["expanded"] = True
 
         if self.config["debug"]:
             print(f"[{node_id}] Added''')], "skip_to_minimal: skip node left unexpanded with edges")
+
+
+# ------------------------------------------------------------------------------------------ C15
+B("B24", "C15-E3", [(DFS, '''            result_is_complete = False
+            continue''', '''            continue''')], "DFS: stack-limit abandon does not clear the flag")
+B("B25", "C15-E3", [(BFS, '''                # Size limit reached.
+                return False''', '''                # Size limit reached.
+                return True''')], "BFS: size limit returns True")
+B("B26", ["C15-E2", "C15-E5"], [(SD, '''        if len(sub_spaces) == self.config["max_motifs_per_node"]:
+            raise RuntimeError(
+                f"Exceeded the maximum amount of stable motifs per node ({self.config['max_motifs_per_node']}; see `SuccessionDiagramConfiguration.max_motifs_per_node`)."
+            )
+''', ''), (SD, '''        # If everything else worked out, we can mark the node as expanded.
+        node["expanded"] = True''', '''        if len(sub_spaces) == self.config["max_motifs_per_node"]:
+            raise RuntimeError("Exceeded the maximum amount of stable motifs per node")
+        # If everything else worked out, we can mark the node as expanded.
+        node["expanded"] = True''')], "motif limit tested after the children were created")
+B("B69", "C15-E5", [(SD, 'if len(sub_spaces) == self.config["max_motifs_per_node"]:',
+                     'if len(sub_spaces) > self.config["max_motifs_per_node"]:')], "truncated sub-space list accepted (> instead of ==)")
+B("B10", "C15-E4", [(BLK, '''                    except RuntimeError:
+                        is_clean = False''', '''                    except RuntimeError:
+                        is_clean = True''')], "failed candidate search counts as clean block")
+B("B10b", "C15-E4", [(SCC, '''    except RuntimeError:
+        return False''', '''    except RuntimeError:
+        return True''')], "failed candidate search counts as 'no candidates' in attachment")
+B("B70", "C15-E3", [(SCC, '''                if not fully_expanded:
+                    # Something bad happened in the expander function and we can't continue.
+                    return False
+''', '')], "SCC driver ignores an incomplete nested expansion")
+B("B71", ["C15-E1", "C15-E2"], [(BLK, '''                bin_values_iter = it.product(range(2), repeat=len(sources))
+                for bin_values in bin_values_iter:
+                    valuation = cast(BooleanSpace, dict(zip(sources, bin_values)))
+                    sub_space = node_space | valuation
+''', '''                bin_values_iter = it.product(range(2), repeat=len(sources))
+                for bin_values in bin_values_iter:
+                    valuation = cast(BooleanSpace, dict(zip(sources, bin_values)))
+                    sub_space = node_space | valuation
+                    if len(sd) > sd.config["max_motifs_per_node"]:
+                        raise RuntimeError("Exceeded the maximum amount of stable motifs per node")
+''')], "limit error raised in the middle of the source fast-forward")
+B("B72", "C15-E1", [(SD, '''        for m_trap in minimal_traps:
+            m_id = self._ensure_node(node_id, m_trap)''', '''        for m_trap in minimal_traps:
+            self.node_attractor_candidates(node_id, compute=True)
+            m_id = self._ensure_node(node_id, m_trap)''')], "skip_to_minimal: candidate search between edge creations")
+B("B73", "C15-E3", [(MIN, '''                and not sd.node_data(node)["expanded"]
+            ):
+                # Size limit reached.
+                return False''', '''            ):
+                # Size limit reached.
+                return False''')], "minimal-space expansion: size limit False on expanded node")
